@@ -5,6 +5,6 @@ CONSTANTS
  PSplit = 6
  MaxLenHigh = 5
  Exps <- ExpsFull
- Precs <- PrecsLow
+ Precs = {3}
 INVARIANT Lemmas
 CHECK_DEADLOCK FALSE
